@@ -768,7 +768,12 @@ def _get_problem_arg(
 
 
 def _remove_typing(x):
-    x = str(x)
+    try:
+        x = str(x)
+    except Exception:
+        # E.g. a signature with a default value whose `__repr__` raises. We're only here
+        # because we're about to raise a type-check error: that is the error to report.
+        return f"<Exception raised when formatting object of type {type(x)}.>"
     x = x.replace(" jaxtyping.", " ")
     x = x.replace("[jaxtyping.", "[")
     x = x.replace("'jaxtyping.", "'")
